@@ -258,7 +258,9 @@ func c03Alphabet() []c03Rec {
 		{"2024-01-02T03:04:33.5Z", time.Date(2024, 1, 2, 3, 4, 33, 500000000, time.UTC)},
 		{"2024-01-02T03:04:33.012345+02:00", time.Date(2024, 1, 2, 3, 4, 33, 12345000, plus2)},
 	}
-	msgs := []string{"", "a", "a b", " lead", "x\ny", "\xff\xfe", "t\n"}
+	// "a b c ...": a blank at every odd offset, so that whatever fixed offset a decoder might cut the timestamp at
+	// (it is the first blank that ends it) meets a blank inside the message
+	msgs := []string{"", "a", "a b", " lead", "x\ny", "\xff\xfe", "t\n", "a b c d e f g h i j k l m n o p q r s t"}
 	var out []c03Rec
 	for _, m := range msgs {
 		for _, f := range forms {
@@ -343,11 +345,11 @@ func c03Run(r *vkit.Run) {
 			r.Sample(map[string]any{"records": seq, "stream_bytes": B, "env_example": c03Env{Kind: "cuts", Cuts: []int{3, B - 2}}})
 		}
 	}
-	// frames larger than common buffer sizes (4 KiB, 32 KiB, 64 KiB): decoded whole, under a few fragmentations
+	// frames at and around common buffer sizes (4, 16, 32, 64 KiB): decoded whole, under a few fragmentations
 	if r.Shard == 0 {
-		for _, n := range []int{4095, 4097, 32769, 70000} {
+		for _, n := range []int{4095, 4097, 16383, 16384, 16385, 32768, 32769, 65536, 70000} {
 			big := c03Rec{Stream: 1, TS: alpha[0].TS, NS: alpha[0].NS, Msg: strings.Repeat("x", n-1) + "y"}
-			for _, seq := range [][]c03Rec{{big}, {alpha[1], big, alpha[5]}} {
+			for _, seq := range [][]c03Rec{{big}, {alpha[1], big, alpha[5]}, {big, big}} {
 				for _, e := range []c03Env{{Kind: "full"}, {Kind: "framewise"}, {Kind: "cuts", Cuts: []int{8, 4096 + 8}}, {Kind: "eof-with-data"}, {Kind: "truncate", At: n / 2}} {
 					c03Check(r, c03Input{Recs: seq, Env: e})
 					cases++
@@ -356,7 +358,7 @@ func c03Run(r *vkit.Run) {
 		}
 	}
 	r.Count("decoder_runs", cases)
-	r.Note("bounds", fmt.Sprintf("all record sequences of length <=%d over %d records (3 stream types x 5 timestamp spellings x 7 messages; length 3 varies the stream type of the first record only); per sequence: every truncation offset, every read-error offset, every stall offset, all single cuts, all double cuts (length<=2), bytewise, framewise, EOF-with-data, every position of systemerr/bad-timestamp/no-space/oversized frame", maxLen, len(alpha)))
+	r.Note("bounds", fmt.Sprintf("all record sequences of length <=%d over %d records (3 stream types x 5 timestamp spellings x 8 messages; length 3 varies the stream type of the first record only); per sequence: every truncation offset, every read-error offset, every stall offset, all single cuts, all double cuts (length<=2), bytewise, framewise, EOF-with-data, every position of systemerr/bad-timestamp/no-space/oversized frame", maxLen, len(alpha)))
 }
 
 func c03Replay(r *vkit.Run, v vkit.Violation) *vkit.Violation {
